@@ -114,6 +114,7 @@ class World:
         if owner.pub().key_to_bin() == foreign.pub().key_to_bin():
             raise HarnessError("owner and foreign key are the same")
         self.pub_bin = owner.pub().key_to_bin()
+        self.foreign_pub = foreign.pub()
         self.crypto = default_eccrypto
         self.sig_len = owner.pub().get_signature_length()
         self.chunk = 64 + self.sig_len
@@ -225,6 +226,13 @@ class World:
             tok = self.Token.unserialize(self.bytes[idx], self.public_key())
         else:
             tok = self.Token(prev, content_hash=chash, signature=sig)
+        if self.specs[idx].get("signer") == "f":
+            # a token of the foreign key has, like in any application holding several trees, already been checked by
+            # its own owner's tree (same object, other key) before it is offered to the tree under test
+            try:
+                tok.verify(self.foreign_pub)
+            except Exception:  # noqa: BLE001
+                pass
         last[idx] = tok
         return tok
 
